@@ -25,7 +25,7 @@ func init() { core.Register(c08{}) }
 func (c08) ID() string    { return "C08" }
 func (c08) Level() string { return "exploration" }
 func (c08) Rule() string {
-	return "two case kinds. (sched) small programs - 2 clients x 1..2 ops or 3 clients x 1 op, op in {Put k, Delete k, Get k, and a 40 KiB Put that makes the active file rotate inside the other clients' windows} on one shared, pre-populated key, optionally plus a client running Merge - are executed under the pause scheduler: every client goroutine blocks at each engine hook point (put.afterAppend, get.afterIndex, delete.afterCheck, delete.afterAppend, merge.afterRotate, merge.record, merge.beforeMarker, merge.done) until granted; a depth-first search over the grant choices enumerates every ordering of the hook-delimited segments (a granted client that neither parks nor returns within 25 ms is taken to be blocked on an engine lock and another client is granted: this only steers exploration); each execution yields a history. (stress) 2..16 clients x 12..80 ops over 1..4 keys (at most ~160 operations per key and history), small DataFileSize, a concurrent Merge client in a third of the cases, stateless yield/sleep injection at the same hook points, -race build. Every history is recorded at the client boundary (call stamp before invoking, return stamp after the reply, one monotonic clock; every Put writes a unique value so a read identifies its write) and, completed by one final Get per key, is checked with porcupine v1.3.0 against a per-key register model (partitioned by key, 60 s timeout -> inconclusive); a returned error from Put/Delete/Get other than key-not-found is a violation; after quiescence the database is closed and reopened and every key must read what the final live Get read. Non-trivial: sched program with >=3 distinct realised interleavings, stress history in which >=2 clients' operations on one key overlapped in time; distinct = hash of the realised grant sequence resp. of the history"
+	return "two case kinds. (sched) small programs - 2 clients x 1..2 ops or 3 clients x 1 op, op in {Put k, Delete k, Get k, and a 40 KiB Put that makes the active file rotate inside the other clients' windows} on one shared, pre-populated key, optionally plus a client running Merge - are executed under the pause scheduler: every client goroutine blocks at each engine hook point (put.afterAppend, get.afterIndex, delete.afterCheck, delete.afterAppend, merge.afterRotate, merge.record, merge.beforeMarker, merge.done) until granted; a depth-first search over the grant choices enumerates every ordering of the hook-delimited segments (a granted client that neither parks nor returns within 25 ms is taken to be blocked on an engine lock and another client is granted: this only steers exploration); each execution yields a history. (stress) 2..16 clients x 4..80 ops over 1..4 keys (at most ~64 operations per key and history: blind deletes make absent reads ambiguous, which is what drives the search cost), small DataFileSize, a concurrent Merge client in a third of the cases, stateless yield/sleep injection at the same hook points, -race build. Every history is recorded at the client boundary (call stamp before invoking, return stamp after the reply, one monotonic clock; every Put writes a unique value so a read identifies its write) and, completed by one final Get per key, is checked with porcupine v1.3.0 against a per-key register model (partitioned by key, 30 s timeout -> inconclusive); a returned error from Put/Delete/Get other than key-not-found is a violation; after quiescence the database is closed and reopened and every key must read what the final live Get read. Non-trivial: sched program with >=3 distinct realised interleavings, stress history in which >=2 clients' operations on one key overlapped in time; distinct = hash of the realised grant sequence resp. of the history"
 }
 func (c08) Assumptions() []string {
 	return []string{"porcupine v1.3.0 decides linearizability of the recorded history", "schedule control exists only at the hook points; pre-emptions inside a segment are reached by the stress part only",
@@ -91,8 +91,8 @@ func (c08) Cases(tier string, seed uint64) []core.Case {
 		nkeys := r.Range(1, 4)
 		// many short histories rather than few enormous ones: the cost of the linearizability
 		// search grows steeply with the number of overlapping operations per key
-		if lim := 160 * nkeys / cl; nops > lim {
-			nops = max(lim, 12)
+		if lim := 64 * nkeys / cl; nops > lim {
+			nops = max(lim, 4)
 		}
 		out = append(out, core.Case{Index: len(out), ID: fmt.Sprintf("c08-stress-%04d", i), Seed: r.U64(),
 			Data: c08Case{Kind: "stress", Cfg: cfg, Clients: cl, NOps: nops, NKeys: nkeys, Merge: i%3 == 0}})
@@ -165,7 +165,7 @@ func checkHistory(h []hop, init map[string]string, res *core.Result, feat map[st
 	for _, o := range h {
 		ops = append(ops, porcupine.Operation{ClientId: o.client + 1, Input: o.in, Call: o.call, Output: o.out, Return: o.ret})
 	}
-	result, _ := porcupine.CheckOperationsVerbose(regModel, ops, 60*time.Second)
+	result, _ := porcupine.CheckOperationsVerbose(regModel, ops, 30*time.Second)
 	res.Add("histories_checked", 1)
 	res.Add("ops_recorded", int64(len(h)))
 	switch result {
